@@ -970,6 +970,15 @@ class HDF5FileSources(Contract):
             ok_imp = pnames == ['imp'] and samples_from == [('imp',)]
             ex.obls.append(Obligation('HDF5File#source.stored_impedance_is_the_one_handed_in', {'C10'}, [], z3.BoolVal(bool(ok_imp)), 'postcondition', line_of(blk),
                                       f'the block that writes /Impedance/data reads the constructor parameters {pnames}; impedance() is called on {samples_from} (expected: imp only)'))
+        # ---- readPhaseSpace: which record is loaded depends on the user's step and on /PhaseSpace/data alone (C11: "loads exactly
+        # the stored values of the chosen record"); the loader model of the VCG unit (ReadPhaseSpace) knows that one dataset
+        rps = [f for f in tu.funcs.get('vfps::HDF5File::readPhaseSpace', []) if body(f) is not None]
+        if len(rps) != 1:
+            raise ExtractionError('HDF5File::readPhaseSpace not found')
+        opened = sorted(set(strlit(c_['inner'][1]) or '?' for c_ in _walk(rps[0]) if c_.get('kind') == 'CXXMemberCallExpr' and
+                            c_['inner'][0].get('name') in ('openDataSet', 'openGroup', 'openAttribute') and len(c_.get('inner', [])) > 1))
+        ex.obls.append(Obligation('HDF5File::readPhaseSpace#reads_the_phase_space_dataset_only', {'C11'}, [], z3.BoolVal(opened == ['/PhaseSpace/data']), 'postcondition', line_of(rps[0]),
+                                  f'objects of the start file that readPhaseSpace opens: {opened} (the record count that resolves InitialDistStep is that of /PhaseSpace/data)'))
         # ---- appendRFKicks(kicks): as many records as the list has entries, read from that list, into the RF-kick dataset (C19)
         rfk = [f for f in tu.funcs.get('vfps::HDF5File::appendRFKicks', []) if body(f) is not None]
         if len(rfk) != 1:
